@@ -521,7 +521,7 @@ def fingerprint(t):
         return None
 
 
-def align_leaves(u, hyps, ref_terms, code_terms, names=None, label="leaf-arguments"):
+def align_leaves(u, hyps, ref_terms, code_terms, names=None, label="leaf-arguments", on_cex=None):
     """Layered congruence: for every uninterpreted application in the reference
     that does not occur syntactically in the code's terms (innermost first),
     look for a code application of the same function whose arguments are
@@ -580,6 +580,32 @@ def align_leaves(u, hyps, ref_terms, code_terms, names=None, label="leaf-argumen
                     subs.append((r, c))
                     break
                 u.r["obligations"] -= 1
+            else:
+                # no code application has provably the reference's arguments: ask
+                # the solver where the closest one differs and replay that input;
+                # only a reproducing witness is kept (this is a search aid, the
+                # deciding obligation is the caller's)
+                if on_cex is not None and same and fr is not None and r.decl().name() in LEAF_NAMES \
+                        and sum(1 for c_ in u.r["cex"] if c_.get("reproduced")) < u.max_cex:
+                    cands = sorted([(abs(fc - fr), c) for fc, c in same if fc is not None],
+                                   key=lambda x: x[0])
+                    for _d, c in cands[:1]:
+                        eq = z3.And(*[r.arg(i) == c.arg(i) for i in range(r.num_args())])
+                        esyms = set(symx.consts_of([eq]))
+                        rel = [h for h, hs in hyp_syms if hs & esyms]
+                        ax = symx.axioms_from_apps(symx.apps_of(rel + [eq]))
+                        sol = z3.Solver()
+                        sol.set("timeout", 20000)
+                        sol.add(*symx.abstract_ufs(list(hyps) + ax + [z3.Not(eq)]))
+                        if str(sol.check()) == "sat":
+                            try:
+                                info = dict(on_cex(sol.model()))
+                            except Exception:
+                                info = {"reproduced": False}
+                            info.pop("block", None)
+                            if info.get("reproduced"):
+                                info["obligation"] = label
+                                u.r["cex"].append(info)
         if not subs:
             break
         ref_terms = [z3.substitute(t, *subs) for t in ref_terms]
